@@ -36,7 +36,7 @@ def rnd_key(r):
 
 
 def rnd_seed(r):
-    n = r.choice([1, 3, 8, 20, 55, 56, 57, 63, 64, 65, 119, 120, 200, 255])
+    n = r.choice([1, 3, 8, 20, 55, 56, 57, 63, 64, 65, 119, 120, 200, 255, 256, 257, 300, 512, 1000])
     return bytes(r.randrange(1, 256) for _ in range(n))
 
 
